@@ -115,10 +115,10 @@ def correspondence(res, st, tier, work, extra_gen=()):
                     return info
                 traces.append(ti)
                 k = first_mismatch(fi, fm)
-                if k is not None:
+                if k is not None and not info["mismatch"]:
+                    # remembered, but the run goes on: the oracles look for a failing input on every trace
                     info["mismatch"] = {"where": "corpus/" + name, "line": k, "impl": fi[k] if k < len(fi) else "<eof>",
                                         "model": fm[k] if k < len(fm) else "<eof>", "case_lines": lines}
-                    return info
     # property-specific exhaustive sweeps (same trace format, same model replay)
     for k, args in enumerate(extra_gen):
         xi = os.path.join(work, "extra%d.impl" % k)
@@ -138,7 +138,7 @@ def correspondence(res, st, tier, work, extra_gen=()):
         traces.append(xi)
         fi, fm = filtered(xi), filtered(xm)
         k2 = first_mismatch(fi, fm)
-        if k2 is not None:
+        if k2 is not None and not info["mismatch"]:
             caseno = None
             for j in range(min(k2, len(fi) - 1), -1, -1):
                 if fi[j].startswith("CASE "):
@@ -148,30 +148,30 @@ def correspondence(res, st, tier, work, extra_gen=()):
             info["mismatch"] = {"where": "sweep %s case %s" % (" ".join(args), caseno), "line": k2,
                                 "impl": fi[k2][:1500] if k2 < len(fi) else "<eof>", "model": fm[k2][:1500] if k2 < len(fm) else "<eof>",
                                 "case_lines": case_input_lines(cases.get(caseno, []))}
-            return info
     ti = os.path.join(work, "trace.impl")
     tm = os.path.join(work, "trace.model")
     env_cases = os.environ.get("VERIF_ED_CASES")
+    info["traces"] = list(traces)
     rc, out, dt = sh([HARNESS, "gen", tier, ti], timeout=3000)
     if rc != 0:
-        info["mismatch"] = {"where": "harness gen", "detail": out[-2000:]}
+        info["mismatch"] = info["mismatch"] or {"where": "harness gen", "detail": out[-2000:]}
         return info
     try:
         info["stats"] = json.loads(out.strip().splitlines()[-1])
     except (ValueError, IndexError):
         info["stats"] = {"raw": out[-500:]}
     res.notes["ed_gen_s"] = round(dt, 1)
+    info["trace"] = ti
+    info["traces"] = traces + [ti]
     rc, out, dt = sh([DRIVER, ti, tm], timeout=3000)
     res.notes["ed_model_s"] = round(dt, 1)
     if rc != 0:
-        info["mismatch"] = {"where": "model driver", "detail": out[-2000:]}
+        info["mismatch"] = info["mismatch"] or {"where": "model driver", "detail": out[-2000:]}
         return info
-    info["trace"] = ti
-    info["traces"] = traces + [ti]
     fi, fm = filtered(ti), filtered(tm)
     info["lines"] = len(fi)
     k = first_mismatch(fi, fm)
-    if k is not None:
+    if k is not None and not info["mismatch"]:
         # locate the case, shrink it
         caseno = None
         for j in range(min(k, len(fi) - 1), -1, -1):
